@@ -1,12 +1,15 @@
 import Zstd.Driver.Util
 import Zstd.Driver.Spec
-import Zstd.Model.FrameDecoder
-/- engine `dec` (stateful): the frame-level decoder state machine under a driver program -/
+import Zstd.Model.FrameFaithful
+/- engine `dec` (stateful): the frame-level decoder state machine under a driver program.
+The block decoder is instance B (`Model/FrameFaithful.lean`): the faithful `Blk.decompressBlock` with the
+real scratch state, so the model answers like the code on malformed block content too (same error
+variant family, same state left behind); dictionaries go through the faithful `Blk.decodeDict`. -/
 namespace Zstd.Driver.Dec
 open Zstd Zstd.Model Zstd.Driver
 
 structure St where
-  dec : Decoder := {}
+  dec : DecB := {}
   src : List Nat := []
   deriving Inhabited
 
@@ -20,7 +23,7 @@ def optNat : Option Nat → String
   | none => "-"
 
 /-- everything the public API lets a caller observe without changing the state -/
-def observe (d : Decoder) : String :=
+def observe (d : DecB) : String :=
   let fin := if d.isFinished then 1 else 0
   let (read, blocks, cks, fcs, did) := match d.state with
     | none => (0, 0, none, 0, none)
@@ -48,12 +51,11 @@ def parseSink (s : String) : Option (List SinkResp) :=
     else if t.startsWith "a" then (t.drop 1).toNat?.map SinkResp.accept
     else none
 
-/-- model-side dictionary: through the Spec parser (stand-in until Model/Dictionary is merged) -/
-def parseDict (bs : List Nat) : Option Dict :=
-  (Zstd.Spec.parseDict bs).map fun d => { id := d.id, entropy := d.entropy, content := d.content }
+/-- model-side dictionary: the mirror of `Dictionary::decode_dict` -/
+def parseDict (bs : List Nat) : Except Fault (Option (Dict Blk.Scratch)) := Blk.decodeDict bs
 
 def step (st : St) (args : List String) : St × String :=
-  let fin (d : Decoder) (src : List Nat) (res : String) : St × String :=
+  let fin (d : DecB) (src : List Nat) (res : String) : St × String :=
     ({ st with dec := d, src := src }, res ++ " | " ++ observe d)
   match args with
   | ["new"] => fin {} [] "ok"
@@ -66,8 +68,9 @@ def step (st : St) (args : List String) : St × String :=
      | none => (st, badOp)
      | some bs =>
        match parseDict bs with
-       | none => fin st.dec st.src "err dict"
-       | some d => fin { st.dec with dicts := d :: st.dec.dicts.filter (fun x => x.id ≠ d.id) } st.src s!"ok {d.id}")
+       | .error _ => fin st.dec st.src "fault"
+       | .ok none => fin st.dec st.src "err dict"
+       | .ok (some d) => fin { st.dec with dicts := d :: st.dec.dicts.filter (fun x => x.id ≠ d.id) } st.src s!"ok {d.id}")
   | ["forcedict", n] =>
     (match n.toNat? with
      | some id => let (d, o) := st.dec.forceDict id; fin d st.src (showOut o fun _ => "")
